@@ -57,7 +57,7 @@ static std::string g_filename(Tape &t, int kind) {
     std::string server = g_name_chars(t, 5, "/\\");
     if (server.empty()) server = "srv";
     // server and share names that software special-cases (local machine, Win32 device / extended-length prefixes)
-    if (t.chance(1, 6)) { static const std::vector<std::string> known = {"localhost", "LOCALHOST", "Localhost", "?", ".", "127.0.0.1", "[::1]", "localhost.", "%6cocalhost"}; server = t.pick(known); }
+    if (t.chance(1, 6)) { static const std::vector<std::string> known = {"localhost", "LOCALHOST", "Localhost", "?", ".", "127.0.0.1", "[::1]", "localhost.", "%6cocalhost", "[2001:db8:0:1]", "[1:2:3]", "[::g]", "[v1.x]", "a:b", "u@h", "h:80"}; server = t.pick(known); }  // incl. look-alikes of bracketed literals, user info and ports
     if (t.chance(1, 6) && !segs.empty()) { static const std::vector<std::string> first = {"C:", "c:", "C|", "UNC", "GLOBALROOT", "c$", "share"}; segs[0] = t.pick(first); }
     s = "\\\\" + server;
     if (t.chance(5, 6)) for (auto &sg : segs) s += "\\" + sg;
